@@ -1,8 +1,10 @@
 SPECIFICATION Spec
+CONSTANT DVariant = "faithful"
 CONSTANT Tier = "quick"
 INVARIANT RoundTrip
 INVARIANT Minimal
 INVARIANT WidthCompat
 INVARIANT Canonical
 INVARIANT Capacity
+INVARIANT ImplRefines
 CHECK_DEADLOCK FALSE
